@@ -110,6 +110,16 @@ def build(desc):
         actions.insert(0, {"m": mf.market_id, "at": 0, "op": "place", "ref": "fml", "sel": list(keep[0]), "side": "LAY", "otype": "MOC", "liability": 10.0})
     case["markets"] = [{"id": mf.market_id, "text": mf.text()} for mf in mfs]
     case["strategies"] = [{"name": "S0", "actions": actions}]
+    if not desc.get("force_moc_lay"):
+        # non-default simulation settings: matching per framework instance instead of per strategy; resting orders also filled from
+        # the sizes on offer (the removal is applied to every order either way)
+        cfg_ = {}
+        if desc["idx"] % 5 == 1:
+            cfg_["simulated_strategy_isolation"] = False
+        if desc["idx"] % 7 == 3:
+            cfg_["simulation_available_prices"] = True
+        if cfg_:
+            case["config"] = cfg_
     if desc["idx"] % 4 == 2:
         # the strategy rebuilds market.context for its own bookkeeping; some orders are filed in the blotter without being sent
         simgen.usage_variants(case, snaps, simgen.mk_rng(desc["seed"], desc["idx"], 909), p_clear_context=0.8, p_execute_false=0.2)
